@@ -644,7 +644,8 @@ def harnesses(tier):
 
 EXPECT = ["C12.inverse_tail_integral_inverts_the_tail_integral", "C12.fast_eq_general.2d", "C12.fast_eq_general.3d", "C12.tail_integral_is_signed_tail_mass", "C12.margin_sum.2d", "C12.margin_sum.3d",
           "C12.submargin_mass_is_I_margin_volume.3d", "C12.additive_split.2d", "C12.additive_split.3d", "C12.nonneg_in_orthant.2d",
-          "C12.nonneg_in_orthant.3d"]
+          "C12.nonneg_in_orthant.3d",
+          "C12.integer_end_points_are_numbers_too.2d", "C12.integer_end_points_are_numbers_too.3d"]
 
 
 def main(tier):
